@@ -1,10 +1,11 @@
 from .runner import Property
 from .fam_replica import ReplicaFam
 from .fam_clientio import ClientIOFam
+from .fam_cluster import ClusterFam
 from .prop_C03 import REPLICA_TRUST
 
 PROP = Property(
-    "C06", ["HsVerif.Props.C06", "HsVerif.Props.C06Sys"], [ClientIOFam(), ReplicaFam("c06")],
+    "C06", ["HsVerif.Props.C06", "HsVerif.Props.C06Sys"], [ClientIOFam(), ReplicaFam("c06"), ClusterFam("c06")],
     facts=[
         {"func": "server/clientio.go:ClientIO.Exec", "order": ["GetCommands", "ID", "Lock", "isDuplicate", "completeCommand", "Unlock", "Write", "completeCommand", "Unlock"]},
         {"func": "server/clientio.go:ClientIO.Abort", "order": ["GetCommands", "Lock", "completeCommand", "Unlock"], "absent": ["Write"]},
